@@ -22,12 +22,15 @@ def graph_bounds(defs):
     nm, dup = defs["NM"], defs.get("DUP", 1)
     e = nm * nm * dup + nm + 2
     names = ["harness", "getInDegree", "getInDegrees", "getAdjacencyMatrix", "getReversedGraph", "getDirectedGraph", "getOutDegrees", "writeTextEdgeList", "writeBinaryEdgeList", "edge_walk"]
-    return ",".join("%s=%d" % (k, e) for k in names) + "," + default_bound(defs)
+    it = "operator++#0&Undirected=%d,operator++=%d,begin=%d," % (nm * nm * dup + 2, nm + 2, nm + 2)
+    return it + ",".join("%s=%d" % (k, e) for k in names) + ",unordered_map=%d," % (defs["VERIF_KEY_MAX"] ** 2 + 2) + default_bound(defs)
 
 
 def step(prop, src, tag, N, NM, LT, OP, OBS, DUP=1, opnames=DIR_OPS, **kw):
     defs = caps(N, NM, DUP)
     defs.update({"LT": LT, "OP": OP, "OBS": OBS})
+    if LT == 4:
+        defs["VERIF_STR_CAP"] = 3
     defs.update(kw.pop("defs", {}))
     ob = {"id": "%s/%s/%s/n%d%s/%s/%s" % (prop, tag, LT_NAMES[LT], N, ("d%d" % DUP) if DUP > 1 else "", opnames[OP] + ("-rm%d" % defs["RM"] if "RM" in defs else ""), OBS_NAMES[OBS]),
           "src": src, "defs": defs, "bounds": graph_bounds(defs)}
@@ -57,12 +60,88 @@ def c01(tier):
             nm = n + 1 if op == 7 else n
             for o in (0, 1):
                 kw = {"optional_reach": [""]} if n < 3 else {"optional_reach": EMPTY_AFTER} if op in (6, 9) else {}
-                obs.append(step("C01", "step_dir.cpp", "dir", n, nm, lt, op, o, **kw))
+                obs.append(step("C01", "step_dir.cpp", "dir", n, nm, lt, op, o, defs={"NO_LABEL_CHECKS": None}, **kw))
         for o in (2, 3, 4, 5):
             if tier == "quick" and lt >= 2 and o != 5:
                 continue
             kw = {"optional_reach": [""]} if n < 3 else {}
-            obs.append(step("C01", "step_dir.cpp", "dir", n, n, lt, 14, o, **kw))
+            obs.append(step("C01", "step_dir.cpp", "dir", n, n, lt, 14, o, defs={"NO_LABEL_CHECKS": None}, **kw))
+    return obs
+
+
+UND_OPS = dict(DIR_OPS)
+UND_OBS = {0: "core", 1: "neigh", 2: "degree", 4: "matrix", 5: "edges"}
+
+
+def c02(tier):
+    obs = []
+    ops = [0, 1, 3, 4, 5, 6, 7, 9]
+    if tier == "quick":
+        plan = [(lt, n) for lt in (0, 1) for n in (0, 1, 2, 3)] + [(lt, 3) for lt in (2, 3, 4, 5)]
+    else:
+        plan = [(lt, n) for lt in (0, 1) for n in (0, 1, 2, 3, 4)] + [(lt, n) for lt in (2, 3, 4, 5) for n in (2, 3)]
+    for lt, n in plan:
+        for op in ops:
+            if n == 0 and op in (0, 1, 3, 5):
+                continue
+            if tier == "quick" and lt >= 2 and op in (1, 9, 7):
+                continue
+            nm = n + 1 if op == 7 else n
+            for o in (0, 1):
+                kw = {"optional_reach": [""]} if n < 3 else {"optional_reach": EMPTY_AFTER} if op in (6, 9) else {}
+                obs.append(step("C02", "step_und.cpp", "und", n, nm, lt, op, o, defs={"NO_LABEL_CHECKS": None}, **kw))
+        for o in (2, 4, 5):
+            if tier == "quick" and lt >= 2 and o != 4:
+                continue
+            if o == 5 and n >= 3 and (tier == "quick" or lt > 1):
+                continue     # whole-graph traversal of the undirected iterator at 3 vertices: thorough tier (the iterator is covered step-wise by C08)
+            kw = {"optional_reach": [""]} if n < 3 else {}
+            if o == 5 and n >= 3:
+                kw.update(timeout=3000, mem_gb=16)
+            ob = step("C02", "step_und.cpp", "und", n, n, lt, 14, o, defs={"NO_LABEL_CHECKS": None}, **kw)
+            ob["id"] = ob["id"].replace("/" + OBS_NAMES.get(o, "?"), "/" + UND_OBS[o])
+            obs.append(ob)
+    return obs
+
+
+def c03(tier):
+    """label lifetime: the same step harnesses with the label-store checks on, labelled types only, plus remove-then-re-add"""
+    obs = []
+    lts = (1, 2, 3, 4, 5)
+    ns = (3,) if tier == "quick" else (2, 3, 4)
+    for src, tag, ops in (("step_dir.cpp", "dir", [0, 1, 2, 11, 3, 4, 5, 6, 7, 8, 9]), ("step_und.cpp", "und", [0, 1, 3, 4, 5, 6, 7, 8, 9])):
+        for lt in lts:
+            for n in ns:
+                if n == 4 and lt not in (1, 5):
+                    continue
+                for op in ops:
+                    if tier == "quick" and lt not in (1, 4) and op in (1, 11, 2, 7, 9):
+                        continue
+                    nm = n + 1 if op == 7 else n
+                    kw = {"optional_reach": EMPTY_AFTER} if op in (6, 9) else {}
+                    obs.append(step("C03", src, tag, n, nm, lt, op, 0, **kw))
+                for rm in (0, 1, 2, 3):
+                    if tier == "quick" and lt not in (1, 4):
+                        continue
+                    obs.append(step("C03", src, tag, n, n, lt, 10, 0, defs={"RM": rm}, optional_reach=["observed pair is not an edge"] if n < 2 else []))
+    return obs
+
+
+def c16_simple(tier):
+    """forced duplicates on the simple / labelled classes"""
+    obs = []
+    for src, tag, observers in (("step_dir.cpp", "dir", (0, 1, 4, 5)), ("step_und.cpp", "und", (0, 1, 4, 5))):
+        for lt in ((0, 1) if tier == "quick" else (0, 1, 3, 4)):
+            for n in ((2,) if tier == "quick" else (2, 3)):
+                dup = 2 if (tier == "quick" or n == 3) else 3
+                for op in (12, 3, 13):
+                    for o in (0, 1):
+                        obs.append(step("C16", src, tag, n, n, lt, op, o, DUP=dup))
+                for o in observers[2:]:
+                    ob = step("C16", src, tag, n, n, lt, 14, o, DUP=dup)
+                    if tag == "und":
+                        ob["id"] = ob["id"].replace("/" + OBS_NAMES.get(o, "?"), "/" + UND_OBS[o])
+                    obs.append(ob)
     return obs
 
 
@@ -74,6 +153,25 @@ PROPS = {
             "explanation": "Inductive step: arbitrary valid pre-state (representation invariant assumed) -> one real mutator with arbitrary in-range arguments -> every observer must equal its definition on the specified abstract post-state; constructor = base case. All steps UNSAT => every finite history on <=N vertices is covered.",
             "assumptions": ["pre-state satisfies RI_dir: entries < size, duplicate free lists, edgeNumber = sum of list lengths, label store keys = edge set"]},
 }
+
+
+PROPS["C02"] = {"gen": c02,
+    "bounds": {"quick": "undirected graphs of 0..3 vertices (NoLabel, int), 3 vertices (other label types); every symmetric state, every neighbour order, either orientation of each call",
+               "thorough": "0..4 vertices (NoLabel, int), 2..3 vertices (other label types)"},
+    "outside": "graphs with more vertices than the bound; force=true (C16)",
+    "explanation": "Inductive step on the symmetric copy-count matrix: arbitrary symmetric pre-state (each list an arbitrary ordering of its row), one mutator naming its pair in an arbitrary orientation, all observers compared with their definition.",
+    "assumptions": ["pre-state satisfies RI_und: symmetric lists, a self-loop listed once, edgeNumber = number of unordered pairs, label keys (min,max) = edge set"]}
+PROPS["C03"] = {"gen": c03,
+    "bounds": {"quick": "directed and undirected labelled graphs on 3 vertices; labels int (32 bit), unsigned char, double (8 table values), std::string (<=2 chars over {a,b}), user struct",
+               "thorough": "2..4 vertices"},
+    "outside": "setEdgeLabel(force=true); graphs with more vertices than the bound",
+    "explanation": "The step harnesses of C01/C02 with the label-store clauses of the representation invariant asserted on the post-state (keys = edge set) and the label observers (getEdgeLabel throwing / non-throwing, hasEdge(i,j,l)); plus remove-by-each-removal then re-add.",
+    "assumptions": ["pre-state: label store has an entry exactly for the existing edges"]}
+PROPS["C16"] = {"gen": c16_simple,
+    "bounds": {"quick": "2 vertices, up to 2 copies per pair", "thorough": "2 vertices with up to 3 copies, 3 vertices with up to 2 copies"},
+    "outside": "more copies / vertices than the bound",
+    "explanation": "Step harnesses with duplicate copies allowed in the pre-state (RI_dup): forced insertion, removeEdge (all copies), removeDuplicateEdges; observers count per copy.",
+    "assumptions": ["pre-state satisfies RI_dup: every pair at most DUP times per list, undirected half-lists carry equal counts, one label entry per connected pair"]}
 
 
 def obligations(prop, tier):
